@@ -291,7 +291,7 @@ def dropFirstTrace : List (Nat × Ev) :=
 /-- thread finishes first (T wins), handle dropped while the thread is still exiting: parks, woken by the kernel -/
 def dropLateTrace : List (Nat × Ev) :=
   spawnOkTrace 0 ++ [(0, .tRet 5), (0, .tWrite), (0, .tCas true), (0, .hDrop), (0, .hCas false), (0, .hLoad 1), (0, .hFwait true),
-    (0, .tFreeTls), (0, .tFreeBox), (0, .tMunmap), (0, .tExit), (0, .kExit), (0, .hFreeTsm)]
+    (0, .tFreeTls), (0, .tFreeBox), (0, .tMunmap), (0, .tExit), (0, .kExit), (0, .hLoad 0), (0, .hFreeTsm)]
 
 /-- panicking thread, handle dropped after the thread is gone (fast path: the load already sees 0) -/
 def panicDropAfterTrace : List (Nat × Ev) :=
